@@ -231,10 +231,24 @@ def gen_history(rng, ctx):
         elif r < 0.66:
             if swarm['interrupt']:
                 op = pal.call(rng)
+                late = False
+                if rng.random() < 0.3:
+                    # land inside the layout filters' with indent/offset
+                    # blocks: they run last, on layout-heavy text
+                    op = {'op': 'call', 'api': 'format',
+                          'inp': {'t': 'str', 'v': rng.choice(corpus.RICH)},
+                          'opts': dict(rng.choice(
+                              [{'reindent': True},
+                               {'reindent_aligned': True},
+                               {'reindent': True, 'comma_first': True}])),
+                          'enc': None}
+                    late = True
                 key = ops.ref_key(op['api'], op['inp'], op['opts'],
                                   op['enc'])
                 total = max(2, ctx.ref(key, steps=True).get('steps', 50))
-                if is_first and rng.random() < 0.6:
+                if late:
+                    at = rng.randint(total // 2, total)
+                elif is_first and rng.random() < 0.6:
                     at = rng.randint(1, min(total, 280))
                 elif rng.random() < 0.2:
                     at = max(1, total - rng.randint(0, 30))
@@ -259,8 +273,13 @@ def gen_history(rng, ctx):
             else:
                 h = rng.choice(open_handles)
                 if rr < 0.7:
-                    ops_.append({'op': 'gen_next', 'h': h,
-                                 'n': rng.choice([1, 1, 2])})
+                    nx = {'op': 'gen_next', 'h': h,
+                          'n': rng.choice([1, 1, 2])}
+                    if swarm['interrupt'] and rng.random() < 0.15:
+                        nx['fault'] = {'kind': 'interrupt',
+                                       'at': rng.randint(1, 1500)}
+                        open_handles.remove(h)
+                    ops_.append(nx)
                 elif rr < 0.78:
                     ops_.append({'op': 'gen_close', 'h': h})
                     open_handles.remove(h)
@@ -548,6 +567,9 @@ def run_history(spec, refs):
         elif kind in ('gen_next', 'gen_finish'):
             sigparts.append(kind[4])
             if rec.get('skipped') or rec.get('dirty'):
+                continue
+            if rec.get('state') == 'interrupted':
+                perturbed = True
                 continue
             ref = refs.get(rec['key'])
             if ref is None or ref['k'] != 'ok':
@@ -881,6 +903,7 @@ PROBES = ['probe_descheduled_holding_lexer_lock',
           'probe_coldline_preemption_fired', 'gen_resumed',
           'gen_closed', 'gen_thrown', 'gen_dropped', 'reconfigured',
           'interrupt_fired', 'interrupt_in_lexer_init',
+          'interrupt_in_lazy_pipeline',
           'interrupt_in_indent_filter', 'interrupt_in_splitter',
           'headroom_fired', 'instr_points']
 
